@@ -29,7 +29,7 @@ LEVEL = 'fault_enumeration'
 RULE = ('Published histories v0..vn (n <= 5; Packages-shaped paragraphs incl. non-ASCII; reverted content, identical consecutive '
         'versions and the empty file included) served from a file:// mirror in a private temp dir, with a SHA1 or SHA256 '
         'index x local state {each v_i, current, foreign, absent} x fault {none, each patch corrupted / truncated / missing, '
-        'Index missing / unparsable / incomplete / the real Index damaged (CRLF, truncated, stray or appended blank-like lines), full file missing, open/.new fails, k-th write fails for every k, close '
+        'patch names in 5 schemes (sequential, counting down, unpadded numbers, hash-like, time stamps - the order of the History lines, not of the names, is the order of application), Index missing / unparsable / incomplete / the real Index damaged (CRLF, truncated, stray or appended blank-like lines), full file missing, open/.new fails, k-th write fails for every k, close '
         'fails, rename vetoed, OSError at every executed line of the four functions}.  Every (scenario, fault, position) is '
         'one evaluation.  Non-trivial: >= 2 patches to apply, or a fault that actually fired on the taken path.')
 ASSUMPTIONS = ['every published version is a list of newline-terminated lines none of which is a lone "." (an ed script cannot carry either); lines may contain FF, VT, FS/GS/RS, NEL, U+2028/9 (not CR: text-mode file I/O translates it)',
@@ -46,12 +46,12 @@ FLOORS = {'quick': {'nontrivial': 1500, 'monitors': {'M.outcome': 6000, 'T.trace
                     'counters': {'fault-fired:write-fail': 400, 'fault-fired:rename-veto': 40, 'fault-fired:close-fail': 40,
                                  'fault-fired:open-fail': 40, 'fault-fired:failpoint': 2000, 'fault-fired:corrupt-patch': 20,
                                  'fault-fired:trunc-patch': 20, 'fault-fired:inconsistent-patch': 20, 'converged-by-chain>=2': 25, 'alg:sha256': 1000, 'alg:sha1': 1000,
-                                 'damaged-index:malformed': 100, 'damaged-index:grammatical': 40}},
+                                 'damaged-index:malformed': 100, 'damaged-index:grammatical': 40, 'converged-by-chain>=2-with-names-not-in-text-order': 15}},
           'thorough': {'nontrivial': 60000, 'monitors': {'M.outcome': 250000, 'T.trace': 250000},
                        'counters': {'fault-fired:write-fail': 20000, 'fault-fired:rename-veto': 1500, 'fault-fired:close-fail': 1500,
                                     'fault-fired:open-fail': 1500, 'fault-fired:failpoint': 80000, 'fault-fired:corrupt-patch': 800,
                                     'fault-fired:trunc-patch': 800, 'fault-fired:inconsistent-patch': 800, 'converged-by-chain>=2': 1500, 'alg:sha256': 40000,
-                                    'alg:sha1': 40000, 'damaged-index:malformed': 7000, 'damaged-index:grammatical': 3000}}}
+                                    'alg:sha1': 40000, 'damaged-index:malformed': 7000, 'damaged-index:grammatical': 3000, 'converged-by-chain>=2-with-names-not-in-text-order': 1000}}}
 LEVEL_TEXT = ('Runtime monitoring with fault enumeration: for every generated (history, local state) the call is repeated once per '
               'fault position - every write index, every executed source line of the four functions, every patch of the chain - '
               'against a file:// mirror; an outcome oracle and a trace specification over audit events decide each execution.  '
@@ -122,6 +122,7 @@ def cases(ctx):
         n = len(vs) - 1
         # layout of the Index: real ones use one blank; the format allows any run of blanks/tabs
         ilayout = [r.choice([' ', ' ', '  ', '\t', ' \t', '   ']), r.choice([' ', ' ', '  ', '\t', '     '])]
+        pnames = r.choice(PNAME_SCHEMES)
         starts = ['v%d' % i for i in range(n)] + ['current', 'foreign', 'absent']
         for start in starts:
             faults = [{'kind': 'none'}, {'kind': 'no-index'}, {'kind': 'bad-index', 'variant': r.randrange(3)},
@@ -140,7 +141,7 @@ def cases(ctx):
                 if r.random() < .4:
                     faults.append({'kind': 'missing-patch', 'j': j})
             for fault in faults:
-                yield {'kind': 'update', 'versions': vs, 'alg': alg, 'start': start, 'fault': fault, 'ilayout': ilayout}
+                yield {'kind': 'update', 'versions': vs, 'alg': alg, 'start': start, 'fault': fault, 'ilayout': ilayout, 'pnames': pnames}
 
 
 # ---------------------------------------------------------------------------
@@ -205,7 +206,24 @@ def _sha(text_bytes, alg):
     return getattr(hashlib, alg)(text_bytes).hexdigest()
 
 
-def publish(root, vs, alg, fault, ilayout=(' ', ' ')):
+PNAME_SCHEMES = ['seq', 'seq', 'countdown', 'unpadded', 'hashlike', 'timestamp']
+
+
+def pname(scheme, i):
+    """Name of the i-th published patch.  Real mirrors use time stamps; the format only asks for a blank-free token, and the
+    order of application is the order of the History lines - not any order on the names."""
+    if scheme in (None, 'seq'):
+        return 'p%d' % i
+    if scheme == 'countdown':
+        return 'p%d' % (9 - i)                  # later patches sort EARLIER
+    if scheme == 'unpadded':
+        return 'p%d' % (8 + i)                  # p8 p9 p10 p11: numeric order is not text order
+    if scheme == 'hashlike':
+        return 'p' + hashlib.md5(b'%d' % i).hexdigest()[:10]
+    return 'p2024-0%d-%02d-%04d.%02d' % (1 + i // 3, 28 - 9 * (i % 3), 1200 - 100 * i, i)   # time stamps, not monotone as text
+
+
+def publish(root, vs, alg, fault, ilayout=(' ', ' '), scheme=None):
     indent, gap = ilayout
     os.makedirs(os.path.join(root, 'Packages.diff'))
     cur = ''.join(vs[-1]).encode('utf-8')
@@ -214,7 +232,7 @@ def publish(root, vs, alg, fault, ilayout=(' ', ' ')):
     pre = 'SHA1' if alg == 'sha1' else 'SHA256'
     hist, pat = [], []
     for i in range(len(vs) - 1):
-        name = 'p%d' % i
+        name = pname(scheme, i)
         script = edscript.make_ed_script(vs[i], vs[i + 1])
         if edscript.apply_ed_script(vs[i], script) != vs[i + 1]:
             raise RuntimeError('harness: ed script deriver is wrong')
@@ -249,7 +267,7 @@ def publish(root, vs, alg, fault, ilayout=(' ', ' ')):
     if kind == 'full-missing':
         os.unlink(os.path.join(root, 'Packages.gz'))
     if kind in ('corrupt-patch', 'trunc-patch', 'missing-patch'):
-        p = os.path.join(root, 'Packages.diff', 'p%d.gz' % fault['j'])
+        p = os.path.join(root, 'Packages.diff', pname(scheme, fault['j']) + '.gz')
         if kind == 'corrupt-patch':
             with gzip.open(p, 'rb') as f:
                 t = f.read()
@@ -355,7 +373,7 @@ def run_case(ctx, case):
     d = ctx.tmpdir()
     try:
         root = os.path.join(d, 'mirror')
-        publish(root, case['versions'], case['alg'], fault, tuple(case.get('ilayout', (' ', ' '))))
+        publish(root, case['versions'], case['alg'], fault, tuple(case.get('ilayout', (' ', ' '))), case.get('pnames'))
         os.makedirs(os.path.join(d, 'local'))
         os.makedirs(os.path.join(d, 'tmp'))
         if fault['kind'] == 'write-fail' and fault['k'] == 'all':
@@ -557,11 +575,13 @@ def _one(ctx, case, d, count_only=False):
         full = remote + '.gz'
         patch_urls = [u for u in urls if '.diff/p' in u]
         if uses_chain and kind in ('none', 'write-fail', 'close-fail', 'open-fail', 'rename-veto') and (err is None or fired):
-            want = ['%s.diff/p%d.gz' % (remote, i) for i in range(chain_from, len(vs) - 1)]
+            want = ['%s.diff/%s.gz' % (remote, pname(case.get('pnames'), i)) for i in range(chain_from, len(vs) - 1)]
             if patch_urls != want or full in urls:
                 ctx.violation('T3/not-updated-by-the-patch-chain', '%s: fetched %r, chain is %r' % (tag, urls, want), case)
             elif len(want) >= 2 and err is None:
                 ctx.count('converged-by-chain>=2')
+                if [u.rsplit('/', 1)[1] for u in want] != sorted(u.rsplit('/', 1)[1] for u in want):
+                    ctx.count('converged-by-chain>=2-with-names-not-in-text-order')
         if err is None and start_lines is not None and not is_current and not uses_chain and kind != 'failpoint' and full not in urls:
             ctx.violation('T3/no-full-download-although-local-unknown-or-index-unusable', '%s: fetched %r' % (tag, urls), case)
         if is_current and index_usable and kind == 'none' and (patch_urls or full in urls):
